@@ -42,14 +42,14 @@ __status__ = "development"
 
 sigmoid = lambda x: 1./(1. + np.exp(-x))
 
+# clamped piecewise-linear interpolation (the meaning of numpy.interp for an increasing grid `x`)
 interp = """
 def interp(x_new, x, y):
-    idx = argmin(abs(x-x_new))
-    if abs(x[idx]) > abs(x_new):
-        i1, i2 = idx-1, idx
-    else:
-        i1, i2 = idx, idx+1
-    return (y[i1] + y[i1])*0.5
+    x_new = as_tensor(x_new, dtype=x.dtype)
+    i2 = clamp(searchsorted(x, x_new, right=True), 1, x.shape[0]-1)
+    i1 = i2 - 1
+    w = clamp((x_new - x[i1]) / (x[i2] - x[i1]), 0.0, 1.0)
+    return y[i1] + w*(y[i2] - y[i1])
 """
 
 # Weighted sum: einsum-based, identical algebra to base_funcs.wsum but using
@@ -84,7 +84,8 @@ torch_funcs = {
     'tan': {'call': 'tan', 'func': np.tan, 'imports': ['torch.tan']},
     'exp': {'call': 'exp', 'func': np.exp, 'imports': ['torch.exp']},
     'sigmoid': {'call': 'sigmoid', 'func': sigmoid, 'imports': ['torch.sigmoid']},
-    'interp': {'call': 'interp', 'func': np.interp, 'def': interp, 'imports': ['torch.abs', 'torch.argmin']},
+    'interp': {'call': 'interp', 'func': np.interp, 'def': interp,
+               'imports': ['torch.as_tensor', 'torch.clamp', 'torch.searchsorted']},
     'wsum':   {'call': 'wsum',   'def': wsum, 'imports': ['torch.einsum']},
     'real': {'call': 'real', 'func': np.real, 'imports': ['torch.real']},
     'imag': {'call': 'imag', 'func': np.imag, 'imports': ['torch.imag']},
